@@ -34,8 +34,9 @@ class RemoveLiteralStatements(SuiteTransformer):
         return self.visit(node)
 
     def visit_Module(self, node):
-        for binding in node.bindings:
-            if binding.name == '__doc__':
+        # Names have not been bound yet when this transform runs, so look for a use of the __doc__ name in the tree
+        for child in ast.walk(node):
+            if isinstance(child, ast.Name) and child.id == '__doc__':
                 node.body = [self.visit(a) for a in node.body]
                 return node
 
